@@ -353,6 +353,15 @@ class BehavioralRTLIRToVVisitorL1( bir.BehavioralRTLIRNodeVisitor ):
 
     elif isinstance( node.value, bir.Index ):
       _one_bit = True
+    elif not isinstance( node.value, (bir.Attribute, bir.Base, bir.TmpVar, bir.LoopVar) ):
+      # The operand is a compound expression (e.g. sext( s.a + s.b, 8 )):
+      # a bit select cannot be applied to it, and appending "[msb]" to its
+      # text would select a bit of its last operand only. Sign-extend
+      # arithmetically instead: sext(x) == (zext(x) ^ m) - m, where m is the
+      # weight of x's sign bit. The outer concatenation keeps the expression
+      # self-determined at the target bitwidth.
+      m = 1 << last_bit
+      return f"{{ ( {{ {{ {padded_nbits} {{ 1'b0 }} }}, {value} }} ^ {target_nbits}'d{m} ) - {target_nbits}'d{m} }}"
     else:
       _one_bit = False
 
